@@ -55,6 +55,20 @@ def budget(tier):
     return {"cases": 4000, "shards": 16}
 
 
+def exhaustive(tier):
+    """Typed lists / dicts that also carry a container-level rule (validator on the list/dict field itself), filled
+    up to that rule's limit, then one single-element operation at every index form: whatever is rejected must
+    leave the value untouched."""
+    for kind in ("list", "dict"):
+        for k in (2, 3, 4):
+            for op in ("append", "setitem", "insert", "setdefault", "update1"):
+                if (kind == "list") != (op in ("append", "setitem", "insert")):
+                    continue
+                for i in (range(-5, 6) if op in ("insert", "setitem") else (0,)):
+                    for bad_item in (False, True):
+                        yield {"mode": "limit", "kind": kind, "k": k, "what": op, "i": i, "bad_item": bad_item}
+
+
 def _with_includes(spec):
     """Optionally add include fields at the root and in one nested schema."""
     def add(flags):
@@ -138,7 +152,53 @@ def _mask(x):
     return x
 
 
+def _limit_case(case, R):
+    cc = sandbox._state["cc"]
+    from ..refmodel import run_validator
+    R.label("limit:" + case["kind"])
+    schema = cc.Schema()
+    rule = lambda cfg, value: run_validator("v_short", value)  # at most three items
+    if case["kind"] == "list":
+        schema.box = cc.ListField(cc.IntField(min=0), validator=rule)
+        start = list(range(10, 10 + case["k"]))
+    else:
+        schema.box = cc.DictField(cc.StringField(), cc.IntField(min=0), validator=rule)
+        start = {"k%d" % j: j for j in range(case["k"])}
+    schema.other = cc.IntField(default=1)
+    cfg = schema()
+    try:
+        cfg.box = start
+    except Exception:
+        return  # four items: the whole assignment is rejected by the rule, nothing to do
+    box = cfg.box
+    before = worlds.snapshot(cfg, cc, with_ids=True)
+    item = -1 if case["bad_item"] else 99
+    what, i = case["what"], case["i"]
+    try:
+        if what == "append":
+            box.append(item)
+        elif what == "insert":
+            box.insert(i, item)
+        elif what == "setitem":
+            box[i] = item
+        elif what == "setdefault":
+            box.setdefault("new", item)
+        else:
+            box.update({"new": item})
+        raised = False
+    except Exception:
+        raised = True
+    if raised:
+        R.label("judged:limit")
+        after = worlds.snapshot(cfg, cc, with_ids=True)
+        R.check(before == after, "unchanged", "limit:%s:%s" % (case["kind"], what),
+                lambda: "a rejected %s(%r) on a %d-item typed %s changed it: %s" % (what, i, case["k"], case["kind"], worlds.diff(before, after)))
+        R.nontrivial = True
+
+
 def run_case(case, R):
+    if case.get("mode") == "limit":
+        return _limit_case(case, R)
     cc = sandbox._state["cc"]
     spec = case["spec"]
     with sandbox.CaseDir() as d:
